@@ -35,7 +35,7 @@ IQR_NORM = 1.3489795003921634
 
 
 def bounds(tier: str) -> dict:
-    return {"vectors": 6561, "thresholds": [1, 3, 5], "methods": ["mad", "iqrm"], "clean_N": 16 if tier == "quick" else 24, "clean_C": 16}
+    return {"vectors": 6561 if tier == "quick" else 6561 + 59049, "thresholds": [1, 3, 5], "methods": ["mad", "iqrm"], "clean_N": 16 if tier == "quick" else 24, "clean_C": 16}
 
 
 def shards(tier: str, seed: int) -> list:
@@ -43,11 +43,15 @@ def shards(tier: str, seed: int) -> list:
     for first in range(3):
         for second in range(3):
             for third in range(3):
-                out.append({"kind": "stats", "prefix": [first, second, third]})
+                out.append({"kind": "stats", "prefix": [first, second, third], "len": 8})
+                if tier == "thorough":
+                    # all 3^10 ten-channel vectors as well (the IQRM radius of 5 then spans exactly half the band)
+                    out.append({"kind": "stats", "prefix": [first, second, third], "len": 10})
     out.append({"kind": "union"})
     b = bounds(tier)
     for nbits in (8, 32, 4, 2, 1):
-        out.append({"kind": "clean", "nbits": nbits, "N": b["clean_N"], "C": b["clean_C"]})
+        for method in ("mad", "iqrm"):
+            out.append({"kind": "clean", "nbits": nbits, "N": b["clean_N"], "C": b["clean_C"], "method": method})
     out.append({"kind": "file"})
     return out
 
@@ -125,9 +129,10 @@ def _mk(hdr, var, skew, kurt, thr):
 
 
 def _stats(shard, ctx, res, only):
-    hdr = _hdr()
+    L = int(shard.get("len", 8))
+    hdr = _hdr(C=L)
     pre = shard["prefix"]
-    for rest in itertools.product(range(3), repeat=5):
+    for rest in itertools.product(range(3), repeat=L - 3):
         code = [*pre, *rest]
         v = np.array([VALS[i] for i in code], dtype=np.float32)
         sk, ku = np.roll(v, 3), v[::-1].copy()
@@ -287,7 +292,7 @@ def _clean(shard, ctx, res, only):
         X[:, 11] = top
     paths = fx.make_fileset(wd, X, nbits, [N], fch1=1400.0, foff=-0.5, tsamp=64e-6)
     for g in [*range(1, N + 2), 10 * N]:
-        for method in ("mad", "iqrm"):
+        for method in (shard["method"],):
             for mv in ([None, 0, 1] if nbits >= 8 else [0, 1]):
                 for fm in (None, [(1399.4, 1399.6)]):
                     if only is not None and [g, method, mv, fm is not None] != only:
